@@ -8,6 +8,90 @@ From Galaxy.Model Require Keys.
 From Galaxy.Proofs Require Import IpamP PluginInv PluginInvL PluginKeyFacts PluginIpamFacts.
 Local Open Scope N_scope.
 
+(** * the key's first IP: the one ByKeyAndIPRanges(key, nil) lists first.  Repaired (K7): the SMALLEST IP of the
+      key, so every caller gets the same one; before ([first_of_key_old]) any IP of the key *)
+
+Lemma first_of_key_gen_some k7 i key o x : first_of_key_gen k7 i key o = Some (Some x) →
+  o_first o = Some x ∧ ∃ e, i_alloc i !! x = Some e ∧ e_key e = key ∧
+    (k7 = true → ∀ y ey, i_alloc i !! y = Some ey → e_key ey = key → x <= y).
+Proof.
+  unfold first_of_key_gen. destruct (by_key i key) as [|kv l] eqn:Ebk; destruct (o_first o) as [x0|]; try discriminate.
+  destruct (i_alloc i !! x0) as [e|] eqn:He; [|discriminate].
+  destruct (str_eqb_spec (e_key e) key) as [Hk|]; [|discriminate]. cbn [andb].
+  destruct (negb k7 || forallb _ _) eqn:Emin; [|discriminate]. intros [= <-]. split; [done|]. exists e. split_and!; try done.
+  intros -> y ey Hy Hky. cbn [negb orb] in Emin. rewrite forallb_forall in Emin.
+  assert (In (y, ey) (kv :: l)) as Hin by (rewrite <- Ebk; by apply by_key_spec).
+  apply Emin in Hin. by apply N.leb_le in Hin.
+Qed.
+
+Lemma first_of_key_gen_none k7 i key o : first_of_key_gen k7 i key o = Some None →
+  by_key i key = [] ∧ ∀ y ey, i_alloc i !! y = Some ey → e_key ey ≠ key.
+Proof.
+  unfold first_of_key_gen. destruct (by_key i key) as [|kv l] eqn:Ebk; destruct (o_first o) as [x0|]; try discriminate.
+  - intros _. split; [done|]. intros y ey Hy Hk.
+    assert (In (y, ey) (by_key i key)) as Hin by (by apply by_key_spec). by rewrite Ebk in Hin.
+  - destruct (i_alloc i !! x0) as [e|]; [|discriminate]. by destruct (_ && _).
+Qed.
+
+(** the characterisation: a named IP is an IP of the key, and the smallest one *)
+Lemma first_of_key_some i key o x : first_of_key i key o = Some (Some x) →
+  ∃ e, i_alloc i !! x = Some e ∧ e_key e = key ∧ ∀ y ey, i_alloc i !! y = Some ey → e_key ey = key → x <= y.
+Proof. intros H. apply first_of_key_gen_some in H as (_ & e & He & Hk & Hmin). exists e. split_and!; try done. by apply Hmin. Qed.
+
+Lemma first_of_key_none i key o : first_of_key i key o = Some None →
+  by_key i key = [] ∧ ∀ y ey, i_alloc i !! y = Some ey → e_key ey ≠ key.
+Proof. apply first_of_key_gen_none. Qed.
+
+Lemma first_of_key_old_some i key o x : first_of_key_old i key o = Some (Some x) → ∃ e, i_alloc i !! x = Some e ∧ e_key e = key.
+Proof. intros H. apply first_of_key_gen_some in H as (_ & e & He & Hk & _). by exists e. Qed.
+
+(** converse: the oracle that names the smallest IP of the key is accepted; before the repair, the oracle naming ANY
+    IP of the key was *)
+Lemma first_of_key_gen_intro k7 i key o x e : o_first o = Some x → i_alloc i !! x = Some e → e_key e = key →
+  (k7 = true → ∀ y ey, i_alloc i !! y = Some ey → e_key ey = key → x <= y) →
+  first_of_key_gen k7 i key o = Some (Some x).
+Proof.
+  intros Ho He Hk Hmin. unfold first_of_key_gen. rewrite Ho.
+  assert (In (x, e) (by_key i key)) as Hin by (by apply by_key_spec).
+  destruct (by_key i key) as [|kv l] eqn:Ebk; [done|]. rewrite He, Hk, str_eqb_refl. cbn [andb].
+  destruct k7; [|done]. cbn [negb orb].
+  assert (forallb (λ kv0 : N * entry, x <=? kv0.1) (kv :: l) = true) as ->; [|done].
+  apply forallb_forall. intros [y ey] Hy. rewrite <- Ebk in Hy. apply by_key_spec in Hy as [Hy Hky].
+  apply N.leb_le. by eapply Hmin.
+Qed.
+
+Lemma first_of_key_intro i key o x e : o_first o = Some x → i_alloc i !! x = Some e → e_key e = key →
+  (∀ y ey, i_alloc i !! y = Some ey → e_key ey = key → x <= y) → first_of_key i key o = Some (Some x).
+Proof. intros Ho He Hk Hmin. by eapply first_of_key_gen_intro. Qed.
+
+Lemma first_of_key_old_intro i key o x e : o_first o = Some x → i_alloc i !! x = Some e → e_key e = key →
+  first_of_key_old i key o = Some (Some x).
+Proof. intros Ho He Hk. by eapply first_of_key_gen_intro. Qed.
+
+Lemma first_of_key_free_intro k7 i key o : o_first o = None → (∀ y ey, i_alloc i !! y = Some ey → e_key ey ≠ key) →
+  first_of_key_gen k7 i key o = Some None.
+Proof.
+  intros Ho Hfree. unfold first_of_key_gen. rewrite Ho. destruct (by_key i key) as [|[y ey] l] eqn:Ebk; [done|].
+  assert (In (y, ey) (by_key i key)) as Hin by (rewrite Ebk; by left). apply by_key_spec in Hin as [Hy Hk]. by destruct (Hfree y ey).
+Qed.
+
+(** the repaired function accepts fewer oracles than the old one and answers the same when it accepts *)
+Lemma first_of_key_old_of i key o r : first_of_key i key o = Some r → first_of_key_old i key o = Some r.
+Proof.
+  destruct r as [x|]; intros H.
+  - apply first_of_key_gen_some in H as (Ho & e & He & Hk & _). by eapply first_of_key_old_intro.
+  - unfold first_of_key, first_of_key_old, first_of_key_gen in *.
+    destruct (by_key i key); destruct (o_first o) as [x0|]; try done.
+    destruct (i_alloc i !! x0); [|done]. by destruct (_ && _).
+Qed.
+
+(** K7 repaired: two calls on the same table - Filter's and Bind's - get the same IP whatever the oracles *)
+Lemma first_of_key_agree i key o o2 x y : first_of_key i key o = Some (Some x) → first_of_key i key o2 = Some (Some y) → x = y.
+Proof.
+  intros H1 H2. apply first_of_key_some in H1 as (e1 & He1 & Hk1 & Hm1), H2 as (e2 & He2 & Hk2 & Hm2).
+  specialize (Hm1 y e2 He2 Hk2). specialize (Hm2 x e1 He1 Hk1). lia.
+Qed.
+
 (** * the table changes of both sections: some entries become keyed [key] and stored for [uid]; what was there
       before was free or keyed by a key in [K] *)
 Definition chg (K : str → Prop) (key uid : str) (i i' : ipam) : Prop :=
